@@ -1,5 +1,7 @@
 import Driver.SpecDrv
 import Driver.FlwDrv
+import Driver.ConcDrv
+import Driver.FmtDrv
 /-
   Line-protocol driver: reads cases from stdin, answers every line with one line.
 
@@ -13,6 +15,8 @@ inductive MSt where
   | none
   | spec (s : SpecDrv.St)
   | flw (s : FlwDrv.St)
+  | conc (s : ConcDrv.St)
+  | fmt (s : FmtDrv.St)
 
 def stepLine (st : MSt) (line : String) : MSt × String :=
   let toks := (line.trimAscii.toString.splitOn " ").filter (· ≠ "")
@@ -22,6 +26,8 @@ def stepLine (st : MSt) (line : String) : MSt × String :=
     match model with
     | "spec" => (.spec {}, hdr)
     | "flw" => (.flw {}, hdr)
+    | "conc" => (.conc {}, hdr)
+    | "fmt" => (.fmt {}, hdr)
     | _ => (.none, hdr ++ " unknown-model")
   | ["END"] => (.none, "END")
   | _ =>
@@ -29,6 +35,8 @@ def stepLine (st : MSt) (line : String) : MSt × String :=
     | .none => (st, "no-case")
     | .spec s => let (s', out) := SpecDrv.step s toks; (.spec s', out)
     | .flw s => let (s', out) := FlwDrv.step s toks; (.flw s', out)
+    | .conc s => let (s', out) := ConcDrv.step s toks; (.conc s', out)
+    | .fmt s => let (s', out) := FmtDrv.step s toks; (.fmt s', out)
 
 partial def loop (hin : IO.FS.Stream) (hout : IO.FS.Stream) (st : MSt) : IO Unit := do
   let line ← hin.getLine
